@@ -262,6 +262,7 @@ def abstract_stub(text):
     """Stub text -> (abstract record, annotation strings).  ast.parse is the validity oracle:
     SyntaxError propagates."""
     tree = ast.parse(text)
+    compile(tree, "<stub>", "exec")  # not executed; also rejects what only the symbol table catches (duplicate parameter names)
     classes = [n for n in tree.body if isinstance(n, ast.ClassDef)]
     res = {"class": classes[0].name if classes else "", "nclasses": len(classes), "attrs": [], "ctor": {"ok": False, "params": []}, "methods": []}
     types = {"base": "", "attrs": [], "meths": [], "other_toplevel": sum(1 for n in tree.body if not isinstance(n, (ast.ClassDef, ast.Import, ast.ImportFrom)))}
@@ -773,7 +774,7 @@ def run(tier, seed):
         "samples": [{"spec_to_code_case": sample_case}, {"code_to_spec_trace": traces[0]}],
     }
     out.assumptions = [
-        "'syntactically valid' is decided by ast.parse (the abstraction function); the specification's counterpart is the parameter-list grammar ParseParams",
+        "'syntactically valid' is decided by ast.parse followed by compile() without execution (the abstraction function); the specification's counterpart is the parameter-list grammar ParseParams (token order, no duplicate names)",
         "field keys, parameter names and class names are identifiers that are not Python keywords and not 'self'; a method's first parameter is positional and receives the configuration",
         "annotation *strings* (typing.List[int], module-qualified class names, dropped annotations of *args/**kwargs, return annotations) are mirrored by the specification but are outside C20: a difference is reported as MODEL-DRIFT in notes, not as a violation",
         "'no side effect' is observed as equality of deep structural snapshots (attribute values and object identities of the schema graph, the config type and every configuration made so far) taken before and after, plus captured sys.stdout; stderr, warnings and the file system are not observed",
